@@ -28,7 +28,7 @@ def evidence_dir():
 
 def replay_dir():
     return os.environ.get("HTSIM_REPLAY_DIR") or os.path.join(VERIF, "replays")
-BATCHES = ["K0", "K1", "K2", "K3", "K4", "K5", "K6", "K7"]
+BATCHES = ["K0", "K1", "K2", "K3", "K4", "K5", "K6", "K7", "K8"]
 TABLES = {2: ["all"], 3: ["all", "linear"], 4: ["all", "linear", "star", "cycle"],
           5: ["all", "linear", "star", "cycle", "T", "Q"], 6: ["all", "linear", "star", "ladder", "E", "H", "Q"]}
 READ_EXCS = ["FileNotFoundError", "PermissionError", "OSError", "UnicodeDecodeError", "MemoryError"]
@@ -40,18 +40,21 @@ BATCH_DOC = {
     "K4": "everything together",
     "K5": "scripted per-op templates: for EVERY op of the alphabet - warm-up, call, (mutate its result, ask again) x2",
     "K7": "scripted table tours: 9-20 distinct tables in one process with re-visits of recent and old ones, all judged",
+    "K8": "scripted hammer: ops of the alphabet in turn - the same request 20-150 times, or 20-120 different requests of its "
+          "family and then the earliest again - then disturb / re-ask (counters, thresholds, periodic clean-ups, growing caches)",
     "K6": "scripted per-table fault sweep: for EVERY shipped table, cold - read failure of each kind / interrupt at "
           "seeded points of the load incl. the last line event - then ask again and ask siblings",
 }
 PLAN = {
     # runs per batch; R2 keys per hash seed; R3 replays; determinism seeds; soft wall cap (s)
     # K5: repetitions per op; K6: (read faults per table, interrupts per table)
-    "quick": {"runs": {"K0": 80, "K1": 200, "K2": 100, "K3": 100, "K4": 120}, "k5_reps": 3, "k6": (2, 4), "k7": 16,
+    "quick": {"runs": {"K0": 80, "K1": 200, "K2": 100, "K3": 100, "K4": 120}, "k5_reps": 3, "k6": (2, 4), "k7": 16, "k8": 58,
               "r2": 48, "r2_single": 3, "r3": 12, "det": 20, "cap": 420},
-    "thorough": {"runs": {"K0": 3000, "K1": 9000, "K2": 5000, "K3": 5000, "K4": 6000}, "k5_reps": 40, "k6": (5, 60), "k7": 600,
+    "thorough": {"runs": {"K0": 3000, "K1": 9000, "K2": 5000, "K3": 5000, "K4": 6000}, "k5_reps": 40, "k6": (5, 60), "k7": 600, "k8": 1160,
                  "r2": 600, "r2_single": 24, "r3": 200, "det": 64, "cap": 3300},
 }
 CHUNK = 4
+K8_WINDOW = 24
 R2_MOD = 8
 # cheap ops whose templates are worth repeating: per-argument state that a failing neighbour call can leave half built
 K5_EXTRA = {"tomo.CircuitResult", "lookup.parse_circuit", "lookup.MUBInfo", "stab.new", "prep.compress_preparation_circuit"}
@@ -278,9 +281,25 @@ class Check:
         for i in range(max(1, int(round(self.plan["k7"] * self.scale)))):
             out.append({"mode": "generate", "batch": "K7", "i": i, "tier": self.tier,
                         "seed": run_seed(self.seed, self.tier, "K7", i), "keep": i < 4, "want_events": True})
+        # K8: the ops that sit on the shipped tables / module-level state are hammered in EVERY run of the check (both
+        # modes); the rest of the alphabet in turn (the window moves with the seed), alternately "same" / "many"
+        names = sorted(OPS)
+        core = [o for o in names if o.split(".")[0] in ("prep", "mub", "lookup", "conn")]
+        rest = [o for o in names if o not in core]
+        total = max(2, int(round(self.plan["k8"] * self.scale)))
+        for i in range(total):
+            lap, k = divmod(i, 2 * len(core) + K8_WINDOW)
+            if k < 2 * len(core):
+                opname, kmode = core[k // 2], ("same" if k % 2 == 0 else "many")
+            else:
+                j = (k - 2 * len(core)) + K8_WINDOW * (lap + self.seed)
+                opname, kmode = rest[j % len(rest)], ("same" if (j // len(rest) + j) % 2 == 0 else "many")
+            out.append({"mode": "generate", "batch": "K8", "i": i, "tier": self.tier, "op": opname,
+                        "n": 2 + (i + lap + self.seed) % 5, "kmode": kmode,
+                        "seed": run_seed(self.seed, self.tier, "K8", i), "keep": i < 4, "want_events": True})
         # interleave batches so that a truncated run still covers all of them; the potentially long templates
         # (5/6 qubits) go first so that they do not form a tail
-        out.sort(key=lambda j: (0 if (j["batch"] == "K7" or (j["batch"] == "K5" and j.get("n", 0) >= 5)) else 1, j["i"], j["batch"]))
+        out.sort(key=lambda j: (0 if (j["batch"] in ("K7", "K8") or (j["batch"] == "K5" and j.get("n", 0) >= 5)) else 1, j["i"], j["batch"]))
         return out
 
     def run_batches(self, pool):
@@ -342,9 +361,13 @@ class Check:
                 a["by_batch"][b]["violations"] += 1
                 self.violating.append(rep)
             if rep.get("script_note"):
-                a["stats"]["k5_" + rep["script_note"]] = a["stats"].get("k5_" + rep["script_note"], 0) + 1
+                pfx = "k8_" if b == "K8" else "k5_"
+                a["stats"][pfx + rep["script_note"]] = a["stats"].get(pfx + rep["script_note"], 0) + 1
                 if rep["script_note"] == "unreachable":
-                    a.setdefault("k5_unreachable_ops", set()).add(job.get("op"))
+                    a.setdefault(pfx + "unreachable_ops", set()).add(job.get("op"))
+            if b == "K8":
+                a["stats"]["k8_repeats"] = a["stats"].get("k8_repeats", 0) + ((rep.get("config") or {}).get("k8_n") or 0)
+                a["stats"]["k8_longest"] = max(a["stats"].get("k8_longest", 0), (rep.get("config") or {}).get("k8_n") or 0)
             if job.get("keep") and rep.get("steps") is not None:
                 self.kept[(b, job["i"])] = rep
 
@@ -764,7 +787,10 @@ def evidence(chk, ref, det, state, wall, t_batches, new, kn):
             "alphabet": {"ops": len(OPS), "ops_called": len(fam("op:")), "ops_never_called": sorted(set(OPS) - set(fam("op:"))),
                          "calls_by_op": fam("op:"), "public_api_audit": getattr(chk, "audit", None)},
             "scripted": {"K5_template_reached": st.get("k5_reached", 0), "K5_template_unreachable": st.get("k5_unreachable", 0),
-                         "K5_ops_unreachable_in_some_run": sorted(a.get("k5_unreachable_ops", set()))},
+                         "K5_ops_unreachable_in_some_run": sorted(a.get("k5_unreachable_ops", set())),
+                         "K8_hammer_reached": st.get("k8_reached", 0), "K8_hammer_unreachable": st.get("k8_unreachable", 0),
+                         "K8_requests_in_hammer_loops": st.get("k8_repeats", 0), "K8_longest_loop": st.get("k8_longest", 0),
+                         "K8_ops_unreachable_in_some_run": sorted(a.get("k8_unreachable_ops", set()))},
             "returned_subobjects_aliased_to_library_state": st.get("returned_subobjects_aliased_to_library_state", 0),
             "cold_loads": st.get("cold_loads", 0), "tables_loaded": sorted(a["warm_files"]), "cold_loads_by_table": fam("cold:"),
             "oracle": {"R1_pristine_fork": a["oracle"], "R2": {k: ref[k] for k in ("r2_keys", "r2_agree", "r2_single", "r2_single_agree")},
